@@ -129,6 +129,14 @@ func (c *collector) addExtra(k string, n int) {
 	c.mu.Unlock()
 }
 
+func (c *collector) setMax(k string, n int) {
+	c.mu.Lock()
+	if n > c.Extra[k] {
+		c.Extra[k] = n
+	}
+	c.mu.Unlock()
+}
+
 func (c *collector) assume(s string) {
 	c.mu.Lock()
 	defer c.mu.Unlock()
@@ -316,6 +324,31 @@ var replayers = map[string]func(raw json.RawMessage) error{}
 
 func registerReplay(prop string, f func(raw json.RawMessage) error) { replayers[prop] = f }
 
+// Cases of a property's end-to-end stage have another shape than its main cases; they are recognised by a
+// top-level key of the case object.
+type extraReplayer struct {
+	key string
+	f   func(raw json.RawMessage) error
+}
+
+var extraReplayers = map[string][]extraReplayer{}
+
+func registerReplayExtra(prop, key string, f func(raw json.RawMessage) error) {
+	extraReplayers[prop] = append(extraReplayers[prop], extraReplayer{key, f})
+}
+
+func pickReplayer(prop string, raw json.RawMessage) func(raw json.RawMessage) error {
+	var top map[string]json.RawMessage
+	if json.Unmarshal(raw, &top) == nil {
+		for _, e := range extraReplayers[prop] {
+			if _, ok := top[e.key]; ok {
+				return e.f
+			}
+		}
+	}
+	return replayers[prop]
+}
+
 // TestReplay re-runs one saved case through the property's oracle, without rapid.
 func TestReplay(t *testing.T) {
 	if *flagCase == "" {
@@ -329,8 +362,8 @@ func TestReplay(t *testing.T) {
 	if err := json.Unmarshal(b, &rf); err != nil {
 		t.Fatalf("bad replay file: %v", err)
 	}
-	f, ok := replayers[rf.Property]
-	if !ok {
+	f := pickReplayer(rf.Property, rf.Case)
+	if f == nil {
 		t.Fatalf("no replayer for property %q", rf.Property)
 	}
 	if err := f(rf.Case); err != nil {
@@ -358,7 +391,7 @@ func runRegress(t *testing.T, prop string) int {
 		if json.Unmarshal(b, &rf) != nil {
 			continue
 		}
-		f := replayers[prop]
+		f := pickReplayer(prop, rf.Case)
 		if f == nil {
 			continue
 		}
